@@ -365,7 +365,116 @@ def leg_pairs(part, tier, shard, nshards):
     drive(part, "pairs", pair_cases(tier), shard, nshards, check_pair)
 
 
+# -- re-entrancy and concurrency: two overlapping message constructions must not influence each other ---------
+
+
+class Reentrant(object):
+    """A bean whose serialisation method builds another message while the outer one is being built."""
+
+    def __init__(self, inner_case):
+        self.inner_case = inner_case
+        self.inner = None
+
+    def _serialize(self):
+        method, params, rpcid, version, resp, notify, cfgname = self.inner_case
+        self.inner = J.dump(mkparams(params), method, rpcid, version, resp, notify, mkconfig(cfgname))
+        return [], {"x": 1}
+
+
+def reentrant_cases(tier):
+    idx = [i for i, c in enumerate(PAIR_CASES) if c[6] != "nojsonclass"]
+    return itertools.product(idx, range(len(PAIR_CASES)), ("request", "response"))
+
+
+def check_reentrant(case):
+    i, j, kind = case
+    out = Out(cls="reentrant/" + kind)
+    bean = Reentrant(PAIR_CASES[j])
+    outer = PAIR_CASES[i]
+    cfg = mkconfig(outer[6])
+    try:
+        inner_alone = J.dump(mkparams(PAIR_CASES[j][1]), *(PAIR_CASES[j][0],) + PAIR_CASES[j][2:6] + (mkconfig(PAIR_CASES[j][6]),))
+        if kind == "request":
+            got = J.dump([bean], "m", outer[2], outer[3], None, None, cfg)
+        else:
+            got = J.dump([bean], None, outer[2], outer[3], True, None, cfg)
+    except Exception as ex:
+        return out.bad("C14/reentrant/raises-%s" % type(ex).__name__, "%r raised %r" % (case, ex))
+    v = float(outer[3] or cfg.version)
+    if not gen.same(got.get("id"), outer[2]):
+        out.bad("C14/overlapping-constructions/id-of-the-other-message", "%r: outer message carries id %r, its caller supplied %r (inner id %r)" % (case, got.get("id"), outer[2], PAIR_CASES[j][2]))
+    if ("jsonrpc" in got) != (v >= 2):
+        out.bad("C14/overlapping-constructions/version-of-the-other-message", "%r: outer message %r built for version %s" % (case, sorted(got), v))
+    if not gen.same(gen.normalise(bean.inner), gen.normalise(inner_alone)):
+        out.bad("C14/overlapping-constructions/inner-message-differs", "%r: inner message %r, alone %r" % (case, bean.inner, inner_alone))
+    return out
+
+
+def leg_reentrant(part, tier, shard, nshards):
+    drive(part, "reentrant", reentrant_cases(tier), shard, nshards, check_reentrant)
+
+
+class ConcDump(object):
+    """E1 harness: two threads build messages concurrently (line granularity of jsonrpc.py)."""
+
+    audited = (J.__file__,)
+
+    def __init__(self, i, j):
+        self.cases = (PAIR_CASES[i], PAIR_CASES[j])
+        self.got = {}
+        self.finished = False
+
+    def worker(self, n):
+        method, params, rpcid, version, resp, notify, cfgname = self.cases[n]
+        try:
+            self.got[n] = J.dump(mkparams(params), method, rpcid, version, resp, notify, mkconfig(cfgname))
+        except Exception as ex:
+            self.got[n] = ("raised", repr(ex))
+
+    def main(self):
+        from mc import sched
+        ts = [sched.MThread(target=self.worker, args=(n,)) for n in (0, 1)]
+        for t in ts:
+            t.start()
+        for t in ts:
+            t.join()
+        self.finished = True
+
+    def final(self, s):
+        v = []
+        if not self.finished:
+            return (s.status, [("C14/concurrent/does-not-terminate", "status %s" % s.status)])
+        for n in (0, 1):
+            method, params, rpcid, version, resp, notify, cfgname = self.cases[n]
+            alone = J.dump(mkparams(params), method, rpcid, version, resp, notify, mkconfig(cfgname))
+            if not gen.same(gen.normalise(self.got[n]), gen.normalise(alone)):
+                v.append(("C14/overlapping-constructions/message-depends-on-concurrent-call",
+                          "dump%r built concurrently with dump%r gives %r, alone %r" % (self.cases[n], self.cases[1 - n], self.got[n], alone)))
+        return (repr(sorted(self.got.items())), v)
+
+
+def make_conc(i, j):
+    from mc import sched
+    sched.install()
+    return lambda: ConcDump(i, j)
+
+
+def leg_concurrent(part, tier, shard, nshards):
+    from mc import explore
+    idx = [0, 1, 2, 4, 5, 6, 8]
+    hs = []
+    for i in idx:
+        for j in idx:
+            if i <= j:
+                hs.append((("checks.c14", "make_conc", (i, j)), "conc-dump/%d-%d" % (i, j)))
+    levels = [{"K": 0, "T": 0}, {"K": 1, "T": 0}, {"K": 2, "T": 0}]
+    total = explore.explore_adaptive(hs, levels, 1500 if tier == "quick" else 40000)
+    part.merge(total)
+
+
 LEGS = {
+    "reentrant": leg_reentrant,
+    "concurrent": leg_concurrent,
     "pairs": leg_pairs,
     "envelope-dump": _leg_envelope("dump"),
     "envelope-dumps": _leg_envelope("dumps"),
@@ -375,7 +484,10 @@ LEGS = {
 }
 
 META = {
-    "technique": "bounded-exhaustive enumeration of dump/dumps argument combinations against a reference envelope model",
+    "engine": "E3-small-scope-enumeration+E1-schedule-explorer",
+    "serial_legs": ("concurrent",),
+    "technique": "bounded-exhaustive enumeration of dump/dumps argument combinations against a reference envelope model; overlapping constructions "
+    "(re-entrant through a serialisation method, and two threads under the schedule explorer at line granularity)",
     "rule": "full cartesian product of the argument alphabets (method x params x rpcid x version x methodresponse x notify x config), "
     "each fed to the real dump and dumps; a case is non-trivial when the reference model defines its outcome "
     "(request/notification/result/error envelope or mandatory TypeError/ValueError); distinct by encoded argument tuple",
@@ -393,6 +505,10 @@ META = {
 
 
 def replay(case):
+    if "schedule" in case:
+        from mc import explore, sched
+        sched.install()
+        return explore.replay_schedule(case)
     leg = case["leg"]
     if leg in ("ids", "loads-empty"):
         out = check_ids((None, False))
@@ -408,6 +524,8 @@ def replay(case):
         return check_fault(c).viols
     if leg == "pairs":
         return check_pair(c).viols
+    if leg == "reentrant":
+        return check_reentrant(c).viols
     if leg == "roundtrip":
         return check_roundtrip(c).viols
     raise ValueError(leg)
